@@ -47,6 +47,14 @@ def finalize(prop: str, tier: str, seed: int, t0: float, *, violations: List[dic
     cov = dict(coverage)
     cov["known_findings_hit"] = known
     cov["machinery_errors"] = errors[:10]
+    from . import core_check as _cc
+    note = _cc.budget_note()
+    if note["time_budget_s"] is not None:
+        cov.update(note)
+        if note["units_not_run_time_budget"]:
+            cov["exhaustive"] = False
+            print(f"NOTE: time budget {note['time_budget_s']:.0f}s reached: {note['units_not_run_time_budget']} of "
+                  f"{note['units_total']} work units were not started (VERIF_BUDGET_S=0 lifts the budget)")
     ev = {
         "property_id": prop, "tier": tier, "seed": seed, "level": level, "coverage": cov,
         "assumptions": assumptions, "wall_s": round(time.time() - t0, 2), "violations": len(fresh),
